@@ -624,6 +624,8 @@ def check_case(case):
             return check_wb2(case)
         if k == 'wbov':
             return check_wbov(case)
+        if k == 'namecycle':
+            return check_namecycle(case)
     raise ValueError(k)
 
 
@@ -768,6 +770,66 @@ def check_wbov(case):
     return R(out, nt=True, n=3, labels=['part:override-cycle'])
 
 
+def _namecycle_cases():
+    """Cycles that close through defined names only, in a workbook that is loaded on demand (only the book that links to
+    it is given to loads()): finish(circular=True) must return and mark / resolve them (added after seed c10-b-r4)."""
+    out = []
+    for kind in ('unguarded', 'guard-off', 'guard-on', 'self'):
+        for route in ('linked', 'direct'):
+            out.append({'k': 'namecycle', 'kind': kind, 'route': route})
+    return out
+
+
+def check_namecycle(case):
+    import openpyxl
+    from openpyxl.workbook.defined_name import DefinedName
+    kind, route = case['kind'], case['route']
+    d = workdir()
+    try:
+        wb = openpyxl.Workbook()
+        ws = wb.active
+        ws.title = 'S'
+        ws['A1'] = kind == 'guard-on'
+        ws['A2'] = 5.0
+        if kind == 'self':
+            defs = {'NX': 'NX+1', 'NY': 'S!$A$2'}
+        elif kind == 'unguarded':
+            defs = {'NX': 'NY+1', 'NY': 'NX*2'}
+        else:
+            defs = {'NX': 'NY+1', 'NY': 'IF(S!$A$1,NX,S!$A$2)'}
+        for k, v in defs.items():
+            wb.defined_names[k] = DefinedName(k, attr_text=v)
+        ws['E1'] = '=NX'
+        ws['E2'] = '=A2*3'
+        wb.save(os.path.join(d, 'book.xlsx'))
+        wb = openpyxl.Workbook()
+        ws = wb.active
+        ws.title = 'M'
+        ws['A1'] = "='[book.xlsx]S'!E1+1"
+        ws['A2'] = "='[book.xlsx]S'!E2+1"
+        wb.save(os.path.join(d, 'main.xlsx'))
+        files = [os.path.join(d, 'main.xlsx')] + ([os.path.join(d, 'book.xlsx')] if route == 'direct' else [])
+        try:
+            with _runner.alarm(20):
+                m = sut.ExcelModel().loads(*files).finish(circular=True)
+                sol = m.calculate()
+        except sut.Watchdog:
+            return R([('termination|name-cycle|%s|%s' % (kind, route), 'loads(%s).finish(circular=True).calculate() did not return within 20 s on a 6-cell workbook' % (
+                [os.path.basename(f) for f in files],))], nt=True, labels=['part:namecycle'])
+        get = lambda k: next((sut.one(v) for kk, v in sol.items() if isinstance(kk, str) and kk.upper() == k.upper()), Foreign('missing'))
+        a1, a2 = get("'[main.xlsx]M'!A1"), get("'[main.xlsx]M'!A2")
+        fails = []
+        if a2 != 16.0:
+            fails.append(('namecycle|bystander|%s|%s' % (kind, route), 'M!A2 = %r, expected 16.0 (it does not touch the cycle)' % (a2,)))
+        if kind == 'guard-off' and a1 != 7.0:
+            fails.append(('namecycle|resolved|%s|%s' % (kind, route), 'M!A1 = %r, expected 7.0 (the cycle closes only through the unselected branch)' % (a1,)))
+        if kind in ('unguarded', 'self', 'guard-on') and not isinstance(a1, Err):
+            fails.append(('namecycle|marked|%s|%s' % (kind, route), 'M!A1 = %r, expected an error value (it depends on an unavoidable cycle)' % (a1,)))
+        return R(fails, nt=True, n=2, labels=['part:namecycle', 'namecycle:' + kind])
+    finally:
+        shutil.rmtree(d, ignore_errors=True)
+
+
 def check_wb2(case):
     r = check_wb(case['wb'])
     if 'wb:out-of-domain' in r['labels']:
@@ -795,6 +857,7 @@ def parts(tier, seed):
         ('enum', 'fixed-workbooks', _fixed_wbs(), 1, False),
         ('enum', 'two-cycles-and-a-rectangle', _two_cycle_wbs(), 1, False),
         ('enum', 'override-breaks-cycle', _override_wbs(), 1, False),
+        ('enum', 'name-only-cycles', _namecycle_cases(), 1, False),
         ('hyp', 'graphs', 2400 if q else 40000),
         ('hyp', 'workbooks', 960 if q else 16000),
         ('custom', 'hashseeds', 'run_hashseed', list(range(8 if q else 24))),
